@@ -145,15 +145,24 @@ def history_shape_leader_first(recs):
 
 
 def to_perf(recs, shuffle_rng=None, layout=None, origin=ORIGIN):
-    """layout = (cpu, period): which optional sample fields the main event records; origin = 0: no SAMPLE_TIME feature (times stay absolute)"""
-    P.set_layout(*(layout or (True, True)))
+    """layout = (cpu, period[, ip, callchain, chains]): which optional sample fields the main event records, and with chains = "mixed" the
+    call chains vary per sample (the usual [USER, ip], empty, context markers only); origin = 0: no SAMPLE_TIME feature (times stay absolute)"""
+    lay = list(layout or (True, True))
+    P.set_layout(*lay[:4])
     try:
-        return _to_perf(recs, shuffle_rng, origin)
+        return _to_perf(recs, shuffle_rng, origin, lay[4] if len(lay) > 4 else "std")
     finally:
         P.set_layout(True, True)
 
 
-def _to_perf(recs, shuffle_rng=None, origin=ORIGIN):
+def _chain(mode, time):
+    if mode != "mixed":
+        return None
+    k = (time // 1000 + time) % 4
+    return [None, [], [P.PERF_CONTEXT_USER], [P.PERF_CONTEXT_KERNEL, P.PERF_CONTEXT_USER]][k]
+
+
+def _to_perf(recs, shuffle_rng=None, origin=ORIGIN, chains="std"):
     out = []
     for r in recs:
         k = r[0]
@@ -164,7 +173,7 @@ def _to_perf(recs, shuffle_rng=None, origin=ORIGIN):
         elif k == "comm":
             out.append((r[5], P.comm(r[1], r[2], ("nm%d" % r[3]) if r[3] else "", r[5], r[4])))
         elif k == "sample":
-            out.append((r[3], P.sample(r[1], r[2], r[3], 0x401160, None)))
+            out.append((r[3], P.sample(r[1], r[2], r[3], 0x401160, _chain(chains, r[3]))))
         elif k == "mmap":
             out.append((r[3], P.mmap2(r[1], r[2], 0x401000, 0x1000, 0x1000, MAPFILE, r[3])))
         elif k == "switch":
